@@ -320,8 +320,9 @@ def coq_history(hist, g0, ref_states, impl, tabs, lob_global, clean):
             elif site in LOB:
                 if lob_global:
                     evs.append(f"e_lobpcg {code(lobpcg_draw_count(e), 2)}%nat")
-                else:
-                    evs.append(f"e_unkeyed {code(n)}%nat {res}")
+                else:               # repaired tree: the start block is a keyed draw with the default key 42
+                    tabs.need_keyed(tabs.sha[42], lobpcg_draw_count(e))
+                    evs.append(f"e_lobpcg_keyed T {code(lobpcg_draw_count(e))}%nat {res}")
             else:
                 raise AssertionError(site)
     obs = []
